@@ -351,3 +351,103 @@ Proof.
     exists r1, r2. destruct (pick (l0 :: lr) r1); [|discriminate]. destruct (pick (u0 :: ur) r2); [|discriminate].
     cbn in Hr1, Hr2. inversion Hr1. inversion Hr2. reflexivity.
 Qed.
+
+(* ---------------------------------------------------------------- the leave checker is tight as well *)
+Lemma nodup_str_sound l : nodup_str l = true -> NoDup l.
+Proof.
+  induction l as [|x r IH]; intros H; [constructor|]. cbn [nodup_str] in H. apply andb_true_iff in H. destruct H as [H1 H2].
+  constructor; [|apply IH; exact H2]. intros HIn. apply mem_str_In in HIn. rewrite HIn in H1. discriminate.
+Qed.
+
+Lemma nodup_ids_inj (nodes : list node_state) p q :
+  NoDup (map n_id nodes) -> In p nodes -> In q nodes -> n_id p = n_id q -> p = q.
+Proof.
+  induction nodes as [|a l IH]; intros ND Hp Hq E; [destruct Hp|].
+  cbn [map] in ND. inversion ND as [|? ? Hna NDl]; subst.
+  destruct Hp as [->|Hp]; destruct Hq as [->|Hq]; try reflexivity.
+  - exfalso. apply Hna. rewrite E. apply in_map. exact Hq.
+  - exfalso. apply Hna. rewrite <- E. apply in_map. exact Hp.
+  - apply IH; assumption.
+Qed.
+
+(* the nodes named by a duplicate-free list of known ids can be moved to the front, in that order *)
+Lemma extract_named : forall (told : list string) (nodes : list node_state),
+  NoDup told -> (forall t, In t told -> In t (map n_id nodes)) -> NoDup (map n_id nodes) ->
+  exists T R, Permutation (T ++ R) nodes /\ map n_id T = told /\ (forall x, In x R -> ~ In (n_id x) told).
+Proof.
+  induction told as [|t ts IH]; intros nodes NDt Hin NDn.
+  - exists [], nodes. split; [apply Permutation_refl|]. split; [reflexivity|]. intros x _ H. exact H.
+  - inversion NDt as [|? ? Ht NDts]; subst.
+    assert (Htin : In t (map n_id nodes)) by (apply Hin; left; reflexivity).
+    apply in_map_iff in Htin. destruct Htin as (p & Ep & Hp).
+    destruct (in_split _ _ Hp) as (l1 & l2 & ->).
+    assert (NDn' : NoDup (map n_id (l1 ++ l2))).
+    { rewrite map_app in *. cbn [map] in NDn. apply NoDup_remove_1 in NDn. exact NDn. }
+    assert (Hnotin : ~ In (n_id p) (map n_id (l1 ++ l2))).
+    { rewrite map_app in *. cbn [map] in NDn. apply NoDup_remove_2 in NDn. exact NDn. }
+    assert (Hin' : forall x, In x ts -> In x (map n_id (l1 ++ l2))).
+    { intros x Hx. assert (H : In x (map n_id (l1 ++ p :: l2))) by (apply Hin; right; exact Hx).
+      rewrite map_app in *. cbn [map] in H. apply in_app_or in H. apply in_or_app.
+      destruct H as [H|[H|H]]; [left; exact H| |right; exact H].
+      exfalso. apply Ht. rewrite <- Ep, H. exact Hx. }
+    destruct (IH (l1 ++ l2) NDts Hin' NDn') as (T & R & P & ET & HR).
+    exists (p :: T), R. split.
+    + cbn [app]. apply Permutation_cons_app. exact P.
+    + split; [cbn [map]; rewrite Ep, ET; reflexivity|].
+      intros x Hx [Hxt|Hxts]; [|exact (HR x Hx Hxts)].
+      apply Hnotin. rewrite Ep, Hxt. apply in_map. apply (Permutation_in _ P). apply in_or_app. right. exact Hx.
+Qed.
+
+Lemma leave_legal_complete c ack told err :
+  NoDup (map n_id (values (c_nodes c))) -> leave_legal c ack told err = true ->
+  exists order, Permutation order (values (c_nodes c)) /\
+                fst (fst (leave_run c ack order)) = told /\ snd (leave_run c ack order) = err.
+Proof.
+  intros ND H. unfold leave_legal in H.
+  apply andb_true_iff in H. destruct H as [H Herr]. apply andb_true_iff in H. destruct H as [H Hlen].
+  apply andb_true_iff in H. destruct H as [Hnd Hsub].
+  apply nodup_str_sound in Hnd. rewrite forallb_forall in Hsub.
+  set (nodes := values (c_nodes c)) in *.
+  set (f := fun s : node_state => leave_candidate (c_local c) s && ack (n_id s)).
+  assert (HA : forall t, In t told -> exists q, In q nodes /\ f q = true /\ n_id q = t).
+  { intros t Ht. specialize (Hsub t Ht). apply mem_str_In in Hsub. unfold ack_cands in Hsub. apply in_map_iff in Hsub.
+    destruct Hsub as (q & Eq & Hq). apply filter_In in Hq. destruct Hq as [Hq Hf]. exists q. repeat split; assumption. }
+  assert (Hin : forall t, In t told -> In t (map n_id nodes)).
+  { intros t Ht. destruct (HA t Ht) as (q & Hq & _ & <-). apply in_map. exact Hq. }
+  destruct (extract_named told nodes Hnd Hin ND) as (T & R & P & ET & HR).
+  exists (T ++ R). split; [exact P|].
+  assert (HfT : filter f T = T).
+  { apply forallb_filter_id || idtac.
+    assert (HT : forall p, In p T -> f p = true).
+    { intros p Hp. assert (Hpt : In (n_id p) told) by (rewrite <- ET; apply in_map; exact Hp).
+      destruct (HA _ Hpt) as (q & Hq & Hfq & Eq).
+      assert (p = q).
+      { apply (nodup_ids_inj nodes); try assumption; [|symmetry; exact Eq].
+        apply (Permutation_in _ P). apply in_or_app. left. exact Hp. }
+      subst q. exact Hfq. }
+    clear - HT. induction T as [|a l IHl]; [reflexivity|]. cbn [filter]. rewrite (HT a (or_introl eq_refl)). f_equal.
+    apply IHl. intros p Hp. apply HT. right. exact Hp. }
+  assert (Eack : ackids (c_local c) ack (T ++ R) = told ++ ackids (c_local c) ack R).
+  { unfold ackids. fold f. rewrite filter_app, map_app, HfT, ET. reflexivity. }
+  assert (PA : Permutation (ackids (c_local c) ack (T ++ R)) (ack_cands c ack)) by (apply perm_filter_map; exact P).
+  assert (PN : Permutation (nackids (c_local c) ack (T ++ R)) (nack_cands c ack)) by (apply perm_filter_map; exact P).
+  unfold leave_run.
+  destruct (leave_loop_spec (c_local c) ack (T ++ R) 0 [] [] false ltac:(lia)) as [A B]. cbn zeta in A, B.
+  rewrite A, B. cbn [app Nat.sub orb Nat.eqb andb]. split.
+  - rewrite Eack. pose proof (Permutation_length PA) as HL. rewrite Eack, app_length in HL.
+    destruct (Nat.leb_spec (List.length (ack_cands c ack)) 4) as [Hle|Hgt]; apply Nat.eqb_eq in Hlen.
+    + assert (List.length (ackids (c_local c) ack R) = 0) by lia.
+      destruct (ackids (c_local c) ack R); [|discriminate]. rewrite app_nil_r. apply firstn_all2. lia.
+    + rewrite firstn_app, Hlen. replace (4 - 4) with 0 by reflexivity. rewrite firstn_O, app_nil_r.
+      apply firstn_all2. lia.
+  - apply Bool.eqb_prop in Herr. rewrite Herr.
+    pose proof (perm_nil_iff _ _ PA) as NA. pose proof (perm_nil_iff _ _ PN) as NN.
+    destruct (ackids (c_local c) ack (T ++ R)) as [|a0 ar] eqn:EA.
+    + cbn [is_nil]. rewrite (proj1 NA eq_refl).
+      destruct (nackids (c_local c) ack (T ++ R)) as [|n0 nr] eqn:EN.
+      * cbn [is_nil negb]. rewrite (proj1 NN eq_refl). reflexivity.
+      * cbn [is_nil negb]. destruct (nack_cands c ack) as [|m0 mr] eqn:EM; [|reflexivity].
+        destruct NN as [_ NN]. specialize (NN eq_refl). discriminate.
+    + cbn [is_nil]. destruct (ack_cands c ack) as [|b0 br] eqn:EB; [|reflexivity].
+      destruct NA as [_ NA]. specialize (NA eq_refl). discriminate.
+Qed.
